@@ -123,8 +123,11 @@ def session(segs, chunks_of, recv_cb="ok", deaf_until: int | None = None):
         for i, ch in enumerate(pieces):
             s.at_time(1.0 + 2.0 * i, lambda ch=ch: s.feed(1, ch))
             s.at_time(1.0 + 2.0 * i + 1.9, lambda: held.append(cr.held_bytes(s.client)))
+    # every third session: a second serial client (another adapter) lives in the process and reads packets in 7-byte pieces
+    cr.SESSIONS[0] += 1
+    by = ("waveshare", b"".join(usb_packets(6))) if cr.SESSIONS[0] % 3 == 0 and len(pieces) < 400 else None
     events = sess.run(vloop.make_client_factory("waveshare"), scenario, until=1.0 + 2.0 * len(pieces) + 2.0, recv_cb=recv_cb,
-                      register="first" if deaf_until is None else "scenario")
+                      register="first" if deaf_until is None else "scenario", bystander=by)
     unheard, pos_, arrived = [], 0, sum(len(p) for p in pieces[:deaf_until or 0])
     for s_ in segs:
         pos_ += len(seg_bytes(s_))
